@@ -264,6 +264,8 @@ def _e3_part(ctx, n):
                 ctx.add_failure("oracle", "e3-rename", sig, detail, witness=rec)
     stats = {}
     recs = cc.e3_directed("nested-drop", ctx.seed, ctx.scale(3, 4))
+    project, history = cc.e3_revol_history()
+    recs += cc.e3_run_case(project, history, 0, "revol", vary=False)
     recs += cc.e3_histories(ctx.rng, n, 7000 + 1000 * ctx.seed, family="nested", stats=stats)
     recs += cc.e3_histories(ctx.rng, max(4, n // 2), 7000 + 1000 * ctx.seed)
     for rec in recs:
